@@ -65,6 +65,8 @@ type Case struct {
 	RecJ    *RecJ    `json:"recj,omitempty"`    // record: schema and column values as marshalled (for the model)
 	RowsJ   []RowJ   `json:"rowsj,omitempty"`   // rows: the batch, field by field (for the model)
 	Seed    uint64   `json:"seed,omitempty"`    // rows/record: generator seed of the case
+	CMode   int      `json:"cmode,omitempty"`   // file: chunk-meta-compress-mode the file was written under
+	PA      *PAJ     `json:"pa,omitempty"`      // preagg: statistics value and, per mode, the real bytes and what the reader returned
 	seed    uint64
 }
 
@@ -955,6 +957,8 @@ func runCase(c *Case) {
 		runRows(c)
 	case "file":
 		runFile(c)
+	case "preagg":
+		runPreAgg(c)
 	}
 	gen.Emit(c)
 }
@@ -962,6 +966,17 @@ func runCase(c *Case) {
 func main() {
 	if len(os.Args) > 1 && os.Args[1] == "consts" {
 		printConsts()
+		return
+	}
+	if len(os.Args) > 2 && os.Args[1] == "preagg" { // statistics blocks only (volume runs)
+		n, _ := strconv.Atoi(os.Args[2])
+		r := gen.FromEnv(7)
+		for i := 0; i < n; i++ {
+			c := Case{}
+			genPreAgg(r, &c)
+			runCase(&c)
+		}
+		fmt.Println(`{"done":true}`)
 		return
 	}
 	n := 300
@@ -993,7 +1008,7 @@ func main() {
 					os.Exit(3)
 				}
 				c := Case{K: in.K, Vals: in.Vals, Strs: in.Strs, Algo: in.Algo, Typ: in.Typ, Payload: in.Payload, Lim: in.Lim, Cols: in.Cols, Series: in.Series,
-					Seed: in.Seed, seed: in.Seed, Shape: "corpus", Src: filepath.Base(f)}
+					Seed: in.Seed, seed: in.Seed, Shape: "corpus", Src: filepath.Base(f), CMode: in.CMode, PA: in.PA}
 				if len(in.Rep) == 2 {
 					c.Vals = make([]uint64, in.Rep[1])
 					for i := range c.Vals {
@@ -1040,6 +1055,12 @@ func main() {
 				genFrame(r, &c)
 			}
 		}
+		runCase(&c)
+	}
+	// 3. stored statistics blocks (cheap: no I/O), every chunk-meta-compress-mode per case
+	for i := 0; i < n/3; i++ {
+		c := Case{}
+		genPreAgg(r, &c)
 		runCase(&c)
 	}
 	fmt.Println(`{"done":true}`)
